@@ -38,6 +38,12 @@ CHECKS.update({
    text="Layers are outermost-first in Doc; selector depth d addresses layers[Len-d+1]. TLC checks C09_Addressing on the model (0..3 layers, same name in several layers) and on every recorded scoped step: only the addressed layer changes, creation adds exactly one innermost layer, an emptied layer disappears and only it, output valid.",
    note=EDIT_NOTE, tech=EDIT_TECH),
 })
+CHECKS.update({
+ "C12": dict(engine="nixtext", cat="model_checking", ref="DESIGN.md §7 C12",
+   text="NixText.tla transcribes the NPath tokenizer as a labelled state machine and specifies segment / attribute spelling and Nix's reading of an attribute token; TLC checks round-trip and split-at-dots for every name over 16 character classes up to the bound, then every enumerated name and path text is executed by the real set / set-again / rm (also against a file spelling the name the other way) and TLC (NixText_Trace) tokenizes, decodes the written tokens and judges.",
+   note="Trusted: TLC; NixDecode of NixText.tla as 'what Nix reads' (no Nix evaluator offline); tree-sitter for locating the written attribute tokens. Exhaustive up to the tier's length bound (names <= 2/3, path texts <= 3/4 characters, 2 segments).",
+   tech="function transcribed to TLA+ (state machine per branch) + TLC-judged execution of every enumerated case"),
+})
 import os
 built = {p: m for p, m in CHECKS.items()}
 checks = []
@@ -65,6 +71,8 @@ man = {
     "kind_free_text": "spec/Gen.tla (grammar as data) -> real parse/rebuild -> spec/Fmt_Trace.tla (TLC judges every recorded round trip)"},
    {"name": "edit", "path": "harness/engines/edit.py", "serves_properties": ["C04", "C05", "C08", "C09"],
     "kind_free_text": "spec/Doc.tla + spec/Edit.tla (document state machine, reference semantics) -> histories replayed on one real document -> spec/Edit_Trace.tla"},
+   {"name": "nixtext", "path": "harness/engines/nixtext.py", "serves_properties": ["C12"],
+    "kind_free_text": "spec/NixText.tla + MC_NixText (names / path texts over character classes) -> real set/set/rm -> spec/NixText_Trace.tla"},
  ],
  "checks": checks,
  "notes": "All checks: ./check <ID> [--tier quick|thorough]; VERIF_SEED / VERIF_TIER honoured. Known findings: known_findings.json. See DESIGN.md.",
